@@ -39,9 +39,9 @@ fn seg() -> BoxedStrategy<Seg> {
         0u8..3,
         0.0f32..=1.0,
         prop_oneof![2 => Just(0u16), 1 => Just(1u16), 2 => 2u16..50, 1 => 100u16..2000],
-        (any::<u32>(), prop_oneof![2 => Just(0u8), 1 => Just(1u8)]),
+        (any::<u32>(), prop_oneof![2 => Just(0u8), 1 => Just(1u8)], proptest::bool::weighted(0.4)),
     )
-        .prop_map(|(len, level, l2, noise, noise_key, gap, gap_level, poll_every, (alt_key, pattern))| Seg {
+        .prop_map(|(len, level, l2, noise, noise_key, gap, gap_level, poll_every, (alt_key, pattern, gap_edge))| Seg {
             len,
             level,
             level2: l2.unwrap_or(level),
@@ -52,13 +52,16 @@ fn seg() -> BoxedStrategy<Seg> {
             poll_every,
             alt_key,
             pattern,
+            gap_edge,
         })
         .boxed()
 }
 
 pub fn ribbon_case(max_segs: usize) -> BoxedStrategy<RibbonCase> {
-    (prop_oneof![2 => 0u16..24, 3 => 0u16..(RATES.len() as u16)], 0u8..4, 0.0f32..=1.0, log_uniform(1.0, 1000.0), proptest::collection::vec(seg(), 1..=max_segs), proptest::option::weighted(0.03, 0u8..6))
-        .prop_map(|(rate_idx, softpot_idx, dropper_frac, pullup_factor, mut segs, huge)| {
+    (prop_oneof![2 => 0u16..24, 3 => 0u16..(RATES.len() as u16)], 0u8..4, 0.0f32..=1.0, log_uniform(1.0, 1000.0), proptest::collection::vec(seg(), 1..=max_segs), proptest::option::weighted(0.03, 0u8..6),
+        // one value within 3 f32 steps of the documented boundary for the gaps marked gap_edge (C15-only runs; 0 = exactly on it)
+        proptest::option::weighted(0.2, prop_oneof![3 => Just(0i8), 2 => -3i8..=3]))
+        .prop_map(|(rate_idx, softpot_idx, dropper_frac, pullup_factor, mut segs, huge, edge_ulps)| {
             // occasionally one very long unbroken press (kept to the cheaper sample rates: the controller re-averages
             // its whole window on every sample)
             let mut rate_idx = rate_idx;
@@ -85,7 +88,7 @@ pub fn ribbon_case(max_segs: usize) -> BoxedStrategy<RibbonCase> {
                 segs[at].len = RunLen::Huge(k);
                 segs[at].poll_every = [0u16, 1000, 4096][k as usize % 3];
             }
-            RibbonCase { rate_idx, softpot_idx, dropper_frac, pullup_factor, segs }
+            RibbonCase { rate_idx, softpot_idx, dropper_frac, pullup_factor, segs, edge_ulps }
         })
         .boxed()
 }
@@ -117,11 +120,11 @@ pub fn replay(property: &str, engine: &str, case: &Value) -> Result<(), Failure>
     }
 }
 
-const GEN: &str = "proptest histories: one of 415 compile-time sample rates (every multiple of 500 Hz up to 192 kHz, audio-family rates, powers of two, neighbours of the ms boundaries; 100 Hz .. 192 kHz, buffer sized by sample_rate_to_capacity), resistor triple (softpot in {5k,10k,20k,100k}, dropper in [100, softpot/5], pull-up = [1,1000] x divider, log-uniform), 1..8 segments = in-range run (length from {1-5 glitch, U[1,L*-1] tap, L*-1, L*, L*+1, up to L*+3*capacity}; level/ramp/noise per run; samples at least 1e-3 inside the in-range interval) followed by 1-3 out-of-range samples (at least 1e-3 outside); edge getters polled every k samples (k from {end only, 1, 2-49, 100-1999}); L* = measured capture length of a fresh controller, must be capacity + settling (-1); ";
+const GEN: &str = "proptest histories: one of 424 compile-time sample rates (every multiple of 500 Hz up to 192 kHz, audio-family rates, powers of two, neighbours of the ms boundaries; 100 Hz .. 192 kHz, buffer sized by sample_rate_to_capacity), resistor triple (softpot in {5k,10k,20k,100k}, dropper in [100, softpot/5], pull-up = [1,1000] x divider, log-uniform), 1..8 segments = in-range run (length from {1-5 glitch, U[1,L*-1] tap, L*-1, L*, L*+1, up to L*+3*capacity}; level/ramp/noise per run; samples at least 1e-3 inside the in-range interval) followed by 1-3 out-of-range samples (at least 1e-3 outside; in C15 runs 20% of the cases instead put one value within 3 f32 steps of the documented boundary 1 - dropper/(dropper+softpot) - half of them exactly on it - into 40% of their gaps: the controller may read that value as in range or as out of range, but the whole history has to match one of the two readings); edge getters polled every k samples (k from {end only, 1, 2-49, 100-1999}); L* = measured capture length of a fresh controller, must be capacity + settling (-1); ";
 
 pub fn c15(quick: bool, seed: u64) -> Outcome {
     let mut o = Outcome::new(&format!("{}model: r = length of the current unbroken in-range run, finger_is_pressing() == (r >= L*) after every sample, two latches for the edge getters. non-trivial = history with >= 2 runs in which a run shorter than L* precedes another run and >= 1 press is reported; distinct by hash", GEN));
-    o.assumptions.push("samples never closer than 1e-3 to the in-range boundary; integer sample rates from the compiled set".into());
+    o.assumptions.push("samples are at least 1e-3 away from the in-range boundary, except the single near-boundary gap value of a case, whose side is not prescribed (only that it has one); integer sample rates from the compiled set".into());
     let cases = if quick { 20_000 } else { 150_000 };
     let part = pt_run("ribbon_history", || ribbon_case(8), cases, seed, 15, 1500, |c, st| run_case(c, C15, st).map(|i| i.nontrivial));
     o.absorb(part);
